@@ -28,6 +28,7 @@ type TempPool struct {
 	cleanRemovedNewOperationsDeep     int
 	cleanRemovedProposalDeep          int
 	cleanRemovedBallotDeep            int
+	setProposalLock                   sync.Mutex
 	setBallotLock                     sync.Mutex
 }
 
@@ -187,6 +188,18 @@ func (db *TempPool) SetProposal(pr base.ProposalSignFact) (bool, error) {
 	_, prb, err := EncodeFrame(db.enc, nil, pr)
 	if err != nil {
 		return false, e.WithMessage(err, "proposal")
+	}
+
+	// NOTE checking and writing should be atomic; only the first proposal
+	// will be stored.
+	db.setProposalLock.Lock()
+	defer db.setProposalLock.Unlock()
+
+	switch found, err := pst.Exists(key); {
+	case err != nil:
+		return false, e.Wrap(err)
+	case found:
+		return false, nil
 	}
 
 	batch.Put(leveldbProposalKey(pr.Fact().Hash()), prb)
